@@ -25,7 +25,7 @@ Empty == [widths |-> <<>>, volumes |-> <<>>, dist |-> <<>>, cum |-> <<>>, total 
 Step(q) ==
   CASE q.k = "psd" -> LET B == Failing(PsdClauses(WithRk(q))) IN [ok |-> B = {}, bad |-> B, expect |-> Empty]
     [] q.k = "kelvin" -> LET B == Failing(KelvinClauses(q)) IN [ok |-> B = {}, bad |-> B, expect |-> Empty]
-    [] q.k = "meniscus" -> [ok |-> q.obs = MeniscusSpec(q.branch, q.pore), bad |-> {MeniscusSpec(q.branch, q.pore)}, expect |-> Empty]
+    [] q.k = "meniscus" -> [ok |-> q.obs = MeniscusSpec(q.branch, q.pore), bad |-> IF q.obs = MeniscusSpec(q.branch, q.pore) THEN {} ELSE {"meniscus_table"}, expect |-> Empty]
     [] q.k = "exact" ->
          LET V == VolOf(q.v0, q.incs)  tk == Tab(q.model)
          IN [ok |-> TRUE, bad |-> {},
